@@ -144,6 +144,71 @@ def parse_kani_output(text):
     return res
 
 
+def inline_stubs_for_playback(tmp, h):
+    """Kani's `#[kani::stub(ORIG, STUB)]` is not applied in a native run.  For the replay, the scratch copy is edited so that the body of every
+    stubbed function of this harness becomes a call to its stub (same signature by construction): the native run then follows the same code as
+    the verified one -- the real code with the named callees (AEAD, replay window, codec) replaced by their contract stubs.  Returns the list of
+    replaced functions, or None if something could not be located."""
+    import sys as _sys
+    _sys.path.insert(0, os.path.dirname(os.path.abspath(__file__)))
+    import rustscan as RS
+    hmod = h['module'].split('::')[-1]
+    hfile = os.path.join(tmp, h['crate'], 'src', hmod + '.rs')
+    text = open(hfile).read()
+    m = re.search(r'((?:\s*#\[[^\n]*\]\n)+)\s*(?:pub\s+)?fn %s\s*\(' % re.escape(h['name']), text)
+    if not m:
+        return None
+    pairs = re.findall(r'#\[kani::stub\(([\w:]+),\s*(\w+)\)\]', m.group(1))
+    done = []
+    for orig, stub in pairs:
+        parts = orig.replace('crate::', '').split('::')
+        fname = parts[-1]
+        tname = parts[-2] if len(parts) == 3 else None
+        f = os.path.join(tmp, h['crate'], 'src', parts[0] + '.rs')
+        try:
+            src = RS.Src(open(f).read(), f)
+        except Exception:
+            return None
+        cands = []
+        if tname:
+            for _, o, c in RS.find_impl_blocks(src, tname, None):
+                for kw, nm in RS.find_items(src, 'fn', fname, within=(o, c)):
+                    cands.append(kw)
+        else:
+            depth = src.depth_map()
+            cands = [kw for kw, nm in RS.find_items(src, 'fn', fname) if depth[kw] == 0]
+        if len(cands) != 1:
+            return None
+        parts_fn = RS.split_fn(src, cands[0])
+        params = src.text[src.toks[parts_fn['lparen']][2]:src.toks[parts_fn['rparen']][1]]
+        args, depth_p, cur = [], 0, ''
+        for ch in params:
+            if ch in '(<[':
+                depth_p += 1
+            elif ch in ')>]':
+                depth_p -= 1
+            if ch == ',' and depth_p == 0:
+                args.append(cur)
+                cur = ''
+            else:
+                cur += ch
+        if cur.strip():
+            args.append(cur)
+        names = []
+        for a in args:
+            a = a.strip()
+            if re.match(r'^(&\s*(\'\w+\s+)?(mut\s+)?)?self$', a) or a.startswith('self:') or a.startswith('mut self'):
+                names.append('self')
+            else:
+                names.append(re.sub(r'^mut\s+', '', a.split(':', 1)[0].strip()))
+        a0, b0 = src.toks[parts_fn['body_open']][2], src.toks[parts_fn['body_close']][1]
+        new = src.text[:a0] + ' crate::%s::verif_kani::%s(%s) ' % (hmod, stub, ', '.join(names)) + src.text[b0:]
+        with open(f, 'w') as fh:
+            fh.write(new)
+        done.append('%s -> %s' % (orig, stub))
+    return done
+
+
 def concrete_playback(tmp, env, base, h, workdir):
     """The harness failed: ask Kani for the counterexample as a unit test (values of every kani::any()), add it next to the harness in the
     scratch copy and run it natively (`cargo kani playback`): the real code, compiled by rustc, on the counterexample.  Kani's stubs are not
@@ -163,6 +228,7 @@ def concrete_playback(tmp, env, base, h, workdir):
         return out
     src = os.path.join(tmp, h['crate'], 'src', h['module'].split('::')[-1] + '.rs')
     text = open(src).read().rstrip()
+    text = re.sub(r'\}\s*//[^\n]*$', '}', text)          # a trailing `} // mod verif_kani`
     if not text.endswith('}'):
         out['replay_result'] = 'could not place the generated test next to the harness'
         return out
@@ -173,6 +239,12 @@ def concrete_playback(tmp, env, base, h, workdir):
     vals = re.search(r'let concrete_vals: Vec<Vec<u8>> = vec!\[(.*?)\];', test_src, re.S)
     out['failing_input'] = 'values of the kani::any() calls of harness %s, in call order (comment = decoded value):\n%s' % (
         h['name'], vals.group(1).strip() if vals else '?')
+    inlined = None
+    try:
+        inlined = inline_stubs_for_playback(tmp, h)
+    except Exception as e:  # the replay is a convenience: never let it break the verdict
+        inlined = None
+    out['stubs_compiled_in'] = inlined
     try:
         q = subprocess.run(['cargo', 'kani', 'playback', '-Z', 'concrete-playback', '-p', h['crate'], '--', test_name], cwd=tmp, env=env,
                            stdout=subprocess.PIPE, stderr=subprocess.STDOUT, text=True, timeout=1200)
@@ -185,7 +257,8 @@ def concrete_playback(tmp, env, base, h, workdir):
         f.write(txt)
     pan = re.search(r"panicked at ([^\n]*)\n([^\n]*)", txt)
     if 'test result: FAILED' in txt and pan:
-        out['replay_result'] = 'REPRODUCED on the real code (native run of the counterexample): panicked at %s: %s' % (pan.group(1).strip(), pan.group(2).strip())
+        how = 'native run of the counterexample' if not inlined else 'native run of the counterexample, with the callees this harness stubs compiled in as those stubs: ' + '; '.join(inlined)
+        out['replay_result'] = 'REPRODUCED on the real code (%s): panicked at %s: %s' % (how, pan.group(1).strip(), pan.group(2).strip())
         out['reproduced'] = True
     elif 'test result: ok' in txt:
         out['replay_result'] = 'not reproduced natively (the counterexample depends on a stubbed callee: Kani stubs are inactive in a native run)'
